@@ -223,7 +223,12 @@ func oracle(k kase, got string) (ok bool, what string) {
 				fmt.Sscan(suf[st:j], &n)
 			}
 			if c == '^' {
+				if n != 1 && n != 2 {
+					return false, fmt.Sprintf("NewCommitSpec(%q) accepted ^%d (only ^, ^1, ^2 are documented)", s, n)
+				}
 				ins = append(ins, n-1)
+			} else if c != '~' {
+				return false, fmt.Sprintf("NewCommitSpec(%q) accepted an ancestor suffix %q that is neither ^ nor ~", s, suf)
 			} else {
 				for x := 0; x < n; x++ {
 					ins = append(ins, 0)
@@ -280,8 +285,11 @@ func main() {
 		}
 	}
 	n := e.N(20000, 600000)
+	// NB hx.NewRng(seed) puts all seeds on one splitmix orbit, offset by `seed` draws, so consecutive
+	// seeds replay almost the same stream; Fork() jumps to an unrelated offset.
+	rng := e.Rng.Fork()
 	for i := 0; i < n; i++ {
-		r := e.Rng
+		r := rng
 		var k kase
 		switch r.Intn(4) {
 		case 0:
